@@ -29,6 +29,8 @@ CONSTANTS
   ModA, ModS, ModE,   \* sampling moduli per family (1 = every case is stimulus)
   LateFactor,         \* late-lock cases (two calls, a full transaction) are sampled this much thinner
   Seed,
+  NWide,      \* number of pseudo-random cases of the wide family (larger wallets, all replayed)
+  CheckFixed, \* also evaluate the contract on the patched design (AllFixed)
   CexScale    \* scales the moduli that thin out the printed model counter-examples
 
 VARIABLES pc, c
@@ -84,7 +86,53 @@ NextE == /\ c.fam = "elig"
          /\ \E ua \in BOOLEAN, mc \in MinConfs, src \in {"a0", "a1"}, fl \in FlowsE, a \in AmtsE(c.outs) :
                  c' = MkCase(c, a, FALSE, mc, 500, 1, ua, src, fl)
 
-Init == pc = "w" /\ c \in Wallets
+\* ------------------------------------------------------- the wide family
+\* NWide pseudo-random cases over larger wallets (3..6 outputs, values 30..150
+\* with many ties, every status, heights/locks around the tip, both accounts),
+\* every parameter free, the amount placed so that the change lands at -2..12
+\* around a prefix of the sorted eligible outputs.  The generator is a pure
+\* function of (k, Seed) written here (a small quadratic hash), so the stimulus does not
+\* depend on TLC's own random numbers.
+\* (all products stay below 2^31: PW^2 < 2^31)
+PW == 46337
+Mix(x) == LET h1 == (x * 31337 + 911) % PW
+              h2 == (h1 * h1 + 7) % PW
+          IN  (h2 * 40503 + h1) % PW
+Rn(k, j) == Mix(Mix((k * 131 + j * 7 + Seed * 1009) % PW))
+Pick(seq, r) == seq[1 + (r % Len(seq))]
+WideOut(k, i) ==
+  LET hl == Pick(<< <<1, 0>>, <<1, 0>>, <<1, 0>>, <<2, 0>>, <<3, 0>>, <<4, 0>>, <<2, 3>>, <<2, 4>> >>, Rn(k, 40 + i)) IN
+  [v    |-> 10 * (3 + (Rn(k, 10 + i) % 13)),
+   st   |-> Pick(<<"Unspent", "Unspent", "Unspent", "Unspent", "Unspent", "Unspent", "Unconfirmed", "Locked", "Spent", "Reverted">>, Rn(k, 20 + i)),
+   h    |-> hl[1], lk |-> hl[2],
+   cb   |-> Rn(k, 30 + i) % 6 = 0,
+   acct |-> IF Rn(k, 50 + i) % 5 = 0 THEN "a1" ELSE "a0"]
+RECURSIVE SumFirst(_, _)
+SumFirst(s, j) == IF j = 0 \/ s = <<>> THEN 0 ELSE Head(s) + SumFirst(Tail(s), j - 1)
+WideCase(k) ==
+  LET n    == 3 + (Rn(k, 1) % 4)
+      outs == [i \in 1..n |-> WideOut(k, i)]
+      src  == IF Rn(k, 2) % 6 = 0 THEN "a1" ELSE "a0"
+      mc   == Rn(k, 3) % 3
+      nch  == Rn(k, 4) % 4
+      inc  == Rn(k, 5) % 3 = 0
+      fl   == Pick(<<"send", "send", "late", "invoice", "send">>, Rn(k, 6))
+      mo   == Pick(<<1, 2, 3, 500, 500, 2, 0>>, Rn(k, 7))
+      ua   == Rn(k, 8) % 2 = 0
+      S    == {i \in 1..n : outs[i].acct = src /\ Eligible(outs[i], H0, mc)}
+      Rank(i) == 1 + Cardinality({j \in S : outs[j].v < outs[i].v \/ (outs[j].v = outs[i].v /\ j < i)})
+      vals == [p \in 1..Cardinality(S) |-> outs[CHOOSE i \in S : Rank(i) = p].v]
+      j    == 1 + (Rn(k, 9) % Max2(1, Cardinality(S)))
+      o    == IF Rn(k, 60) % 2 = 0 THEN 1 ELSE nch + 1
+      d    == (Rn(k, 61) % 15) - 2
+      base == SumFirst(vals, j) - (IF inc /\ fl = "send" THEN 0 ELSE Fee(j, o, 1)) - d
+      amt  == IF Rn(k, 62) % 25 = 0 THEN TOP - (Rn(k, 63) % 60) ELSE Max2(0, base)
+  IN [fam |-> "wide", outs |-> outs, amt |-> amt, incfee |-> (inc /\ fl # "invoice"), height |-> H0, minconf |-> mc,
+      maxouts |-> mo, nchange |-> nch, useall |-> ua, src |-> src, flow |-> fl]
+WideCases == {WideCase(k) : k \in 1..NWide}
+
+Init == \/ pc = "w" /\ c \in Wallets
+        \/ pc = "c" /\ c \in WideCases
 Next == pc = "w" /\ pc' = "c" /\ (NextA \/ NextE)
 Spec == Init /\ [][Next]_vars
 
@@ -97,8 +145,8 @@ FlIdx(f) == CASE f = "send" -> 1 [] f = "late" -> 2 [] OTHER -> 3
 Hash(x) == ( HSeq(x.outs) * 131 + (x.amt % 100003) * 17 + x.minconf * 3 + x.maxouts * 5 + x.nchange * 7
              + (IF x.useall THEN 11 ELSE 0) + (IF x.incfee THEN 13 ELSE 0) + FlIdx(x.flow) * 19
              + (IF x.src = "a0" THEN 0 ELSE 23) + Seed * 7919 ) % 1000003
-ModOf(x) == CASE x.fam = "arith" -> ModA [] x.fam = "small" -> ModS [] OTHER -> ModE
-Sampled(x) == (Hash(x) \div 7) % (ModOf(x) * (IF x.flow = "late" THEN LateFactor ELSE 1)) = 0
+ModOf(x) == CASE x.fam = "arith" -> ModA [] x.fam = "small" -> ModS [] x.fam = "wide" -> 1 [] OTHER -> ModE
+Sampled(x) == x.fam = "wide" \/ (Hash(x) \div 7) % (ModOf(x) * (IF x.flow = "late" THEN LateFactor ELSE 1)) = 0
 
 \* ------------------------------------------------------------ reporting
 \* A model counter-example is printed when a second seeded hash selects it; the
@@ -118,7 +166,7 @@ Report(tag, x, i) ==
 
 CheckCase ==
   LET fo == Failed(c, AsOutcome(c, SelectRef(c, Orig)))
-      ff == Failed(c, AsOutcome(c, SelectRef(c, AllFixed)))
+      ff == IF CheckFixed THEN Failed(c, AsOutcome(c, SelectRef(c, AllFixed))) ELSE {}
   IN /\ \A i \in fo : Report("CEX", c, i)
      /\ \A i \in ff : Report("FIXCEX", c, i)
      /\ IF Sampled(c) THEN PrintT(<<"CASE", ToJson(c)>>) ELSE TRUE
